@@ -133,7 +133,14 @@ class BasicDSG(DSG):
 
     def _choice_sort_key(self, choice_node: CDVNode) -> tuple:
         type_idx = {SelectionChoiceNode: 0, ConnectionChoiceNode: 1, DesignVariableNode: 2}.get(type(choice_node), 3)
-        return type_idx, choice_node.decision_id, getattr(choice_node, 'decision_sort_key', '')
+
+        # Break ties between choices with the same id by the nodes they originate from and their option nodes, so that
+        # the order does not depend on set iteration order (i.e. on object ids / the hash seed of the process)
+        tie_breaker = ''
+        if choice_node in self._graph.nodes:
+            tie_breaker = '|'.join(sorted(node.str_context() for node in self._graph.predecessors(choice_node))) + \
+                '>' + '|'.join(sorted(node.str_context() for node in self._graph.successors(choice_node)))
+        return type_idx, choice_node.decision_id, getattr(choice_node, 'decision_sort_key', ''), tie_breaker
 
     def add_edge(self, src: DSGNode, tgt: DSGNode, edge_type: EdgeType = EdgeType.DERIVES):
         """Add a directed edge between some source and target nodes"""
